@@ -1,6 +1,7 @@
 package props
 
 import (
+	"context"
 	"encoding/json"
 	"fmt"
 	"io"
@@ -9,6 +10,7 @@ import (
 	"path/filepath"
 	"sort"
 	"strings"
+	"time"
 
 	"github.com/jf-tech/omniparser"
 	"github.com/jf-tech/omniparser/extensions/omniv21/fileformat"
@@ -1025,7 +1027,7 @@ func c12Run(c *core.Ctx) {
 	}
 	// free-running race pass (real sync.Pool, race detector)
 	if c.Shard == 0 {
-		if msg := runRaceBinary("nodes"); msg != "" {
+		if msg := runRaceBinary("nodes", c.Alive); msg != "" {
 			if strings.HasPrefix(msg, "skip:") {
 				c.Note("free-running -race pass not run: " + msg)
 			} else {
@@ -1038,7 +1040,7 @@ func c12Run(c *core.Ctx) {
 }
 
 // runRaceBinary runs .build/mcrace <scenario>; "" = clean, "skip:..." = binary missing.
-func runRaceBinary(scenario string) string {
+func runRaceBinary(scenario string, alive func()) string {
 	bin := filepath.Join(core.VerifDir, ".build", "mcrace")
 	if b := os.Getenv("VERIF_BIN_DIR"); b != "" {
 		bin = filepath.Join(b, "mcrace")
@@ -1046,9 +1048,32 @@ func runRaceBinary(scenario string) string {
 	if _, err := os.Stat(bin); err != nil {
 		return "skip: " + bin + " not built"
 	}
-	cmd := exec.Command(bin, scenario)
+	// the subprocess has a deadline of its own; while it runs the watchdog of this worker is kept quiet (the
+	// pass takes a minute or two on a loaded machine, and that is not a hang of a case)
+	ctx, cancel := context.WithTimeout(context.Background(), 30*time.Minute)
+	defer cancel()
+	cmd := exec.CommandContext(ctx, bin, scenario)
 	cmd.Env = append(os.Environ(), "GORACE=halt_on_error=1 exitcode=66")
+	done := make(chan struct{})
+	go func() {
+		t := time.NewTicker(5 * time.Second)
+		defer t.Stop()
+		for {
+			select {
+			case <-done:
+				return
+			case <-t.C:
+				if alive != nil {
+					alive()
+				}
+			}
+		}
+	}()
 	out, err := cmd.CombinedOutput()
+	close(done)
+	if ctx.Err() != nil {
+		return "the free-running pass did not finish within 30 minutes\n" + string(out)
+	}
 	if err != nil {
 		s := string(out)
 		if len(s) > 3000 {
